@@ -39,6 +39,9 @@ type c20Creation struct {
 	Samples []int64 `json:"samples"` // same encoding
 	Scope   int     `json:"scope,omitempty"`
 	How     string  `json:"how,omitempty"` // how the generator derived it (information only)
+	// SameSlice (sequential histories): the creation is made with the very slice of the previous
+	// creation (same kind and length), which the caller has refilled in place with this set
+	SameSlice bool `json:"same_slice,omitempty"`
 }
 type c20Case struct {
 	T       int           `json:"t"`
@@ -558,6 +561,14 @@ func c20GenCache(r *Rng, conc bool) c20Case {
 		}
 		pool = append(pool, sp{dur, spec})
 		c.Cr = append(c.Cr, c20Creation{Dur: dur, Spec: spec, Samples: c20Samples(r, dur, spec), Scope: r.Intn(4), How: how})
+		if !conc && len(spec) >= 2 && len(c.Cr) < n && r.Chance(20) {
+			// the caller keeps one scratch slice: it is refilled in place with another set of the
+			// same length and the same cache identity and handed to the next creation
+			if s2, ok := c20WithIdentity(r, dur, c20Identity(spec), len(spec)); ok && len(s2) == len(spec) && fmt.Sprint(s2) != fmt.Sprint(spec) {
+				pool = append(pool, sp{dur, s2})
+				c.Cr = append(c.Cr, c20Creation{Dur: dur, Spec: s2, Samples: c20Samples(r, dur, s2), Scope: r.Intn(4), How: "same-slice-refilled", SameSlice: true})
+			}
+		}
 	}
 	return c
 }
@@ -1036,6 +1047,8 @@ func c20RunCacheOnce(c *c20Case) (in, obs []Ev, fail string) {
 	}
 	scopes := []tally.Scope{root, root.SubScope("s"), root.Tagged(map[string]string{"k": "v"}), root.SubScope("s").Tagged(map[string]string{"a": "b"})}
 	hs := make([]tally.Histogram, len(c.Cr))
+	refilled := map[int]bool{} // creations whose slice the caller has re-used since
+	refillFail := ""
 	var pmu sync.Mutex
 	panics := ""
 	guard := func(what string, i int) {
@@ -1066,6 +1079,23 @@ func c20RunCacheOnce(c *c20Case) (in, obs []Ev, fail string) {
 	}
 	if c.T == 4 {
 		for i := range c.Cr {
+			if c.Cr[i].SameSlice && i > 0 && len(c.Cr[i].Spec) == len(c.Cr[i-1].Spec) && c.Cr[i].Dur == c.Cr[i-1].Dur {
+				if !c20Unchanged(bks[i-1], c.Cr[i-1].Dur, c.Cr[i-1].Spec) && refillFail == "" {
+					refillFail = fmt.Sprintf("the slice given to creation %d was modified", i-1)
+				}
+				switch bb := bks[i-1].(type) {
+				case tally.ValueBuckets:
+					for j := range bb {
+						bb[j] = c20f(c.Cr[i].Spec[j])
+					}
+				case tally.DurationBuckets:
+					for j := range bb {
+						bb[j] = time.Duration(c.Cr[i].Spec[j])
+					}
+				}
+				bks[i] = bks[i-1]
+				refilled[i-1] = true
+			}
 			create(i)
 		}
 		for i := range c.Cr {
@@ -1151,8 +1181,12 @@ func c20RunCacheOnce(c *c20Case) (in, obs []Ev, fail string) {
 		fail = rec.bad[0]
 		return
 	}
+	if refillFail != "" {
+		fail = refillFail
+		return
+	}
 	for i, cr := range c.Cr {
-		if !c20Unchanged(bks[i], cr.Dur, cr.Spec) {
+		if !refilled[i] && !c20Unchanged(bks[i], cr.Dur, cr.Spec) {
 			fail = fmt.Sprintf("the slice given to creation %d was modified", i)
 			return
 		}
